@@ -154,8 +154,9 @@ def expandList (T : Tables) : Nat → Nat → Option Nat → List Node → XRes
           | c31 :: rest' =>
             if Desc.f c31.desc = 0 ∧ Desc.x c31.desc = 31 then
               let value0 : Int := if c31.hasVal then c31.ival else -1
-              let c31v : Node := { c31 with hasVal := c31.hasVal || decide (value0 < 0),
-                                            ival := if value0 < 0 then 0 else c31.ival }
+              -- `if (value < 0) { if (cb31->value == NULL) mkval; bufr_value_set_int32(value, 0); }`
+              let c31v : Node := { c31 with val := if value0 < 0 then
+                                     (match c31.val with | .none => Val.i32 0 | v => v.setInt32 0) else c31.val }
               let value : Int := if value0 < 0 then 0 else value0
               let rep0 := solveReplication value (Desc.y c31.desc)
               let rep := if rep0 < 0 then 0 else rep0
